@@ -1,8 +1,7 @@
 #!/bin/bash
-# usage: reseed.sh <seed-id> <checks,comma>   re-evaluates one stored seed (seeded/<id>/) with the live checks
-sid=$1; prop=${sid%%-*}; d=/verif/seeded/$sid
-demo=$(ls $d/*_test.go | head -1)
-python3 /verif/tools/try_seed.py $sid $prop $d/patch.diff $demo "$2" > /tmp/seedgen6/re-$sid.json 2>&1
+# usage: reseed.sh <seed-id> <checks,comma>   re-evaluates one round-6 seed (files in seeded/_incoming6) with the live checks
+sid=$1; prop=${sid%%-*}; m=${sid: -1}; d=/verif/seeded/_incoming6
+python3 /verif/tools/try_seed.py $sid $prop $d/$prop.mut$m.diff $d/$prop.mut$m.demo_test.go "$2" > /tmp/seedgen6/re-$sid.json 2>&1
 python3 - $sid <<'PY'
 import json,sys
 m=json.load(open('/verif/seeded/%s/meta.json'%sys.argv[1]))
